@@ -478,7 +478,8 @@ let show_greq (q : greq) : string =
 
 let front (payload : string) : string =
   let hb = bytes_of_hex in
-  match split_on ' ' payload with
+  (* tokens that start with '+' describe the transport only *)
+  match List.filter (fun t -> t = "" || t.[0] <> '+') (split_on ' ' payload) with
   | "conv" :: [id; fhb; fow; ser; comp; meta; auth; path; meth; body] ->
     let h = { h_id = hb id; h_hb = hb fhb; h_oneway = hb fow; h_ser = hb ser; h_comp = hb comp; h_meta = hb meta;
               h_auth = hb auth; h_path = hb path; h_meth = hb meth } in
